@@ -147,7 +147,7 @@ def gen_c28(rng, length):
             ops.append("api disconnect")
             quiet = True
         elif r < 0.90:
-            ops.append("connect %d %d" % rng.choice([(24, 72), (6, 10), (3200, 3200)]))
+            ops.append("connect %d %d" % rng.choice([(24, 72), (16, 10), (3200, 3200)]))
             quiet = quiet and rng.random() < 0.5
         elif r < 0.94 and late:
             ops.append("key %d %d" % late.pop())
@@ -628,7 +628,7 @@ def gen_c29(rng, length):
         elif r < 0.80:
             ops.append("api disconnect")
         elif r < 0.93:
-            ops.append("connect %d %d" % rng.choice([(24, 72), (6, 10)]))
+            ops.append("connect %d %d" % rng.choice([(24, 72), (16, 10)]))
         elif r < 0.96:
             ops.append("ev " + " ".join(rng.choice(simple)() for _ in range(rng.choice([4, 5, 6]))))   # overflow candidates
         else:
